@@ -475,7 +475,10 @@ def main(tier: str, seed: int) -> int:
                 lists[blocker] = {"rules": [{"act": "DENY", "src": {"__set__": ["A"]}, "dst": dict(universe), "proto": "any", "dport": 0}],
                                   "implicit": "PERMIT"}
                 directed.append({"topo": "fw", "zoneA": za, "zoneB": zb, "up": dict(all_up), "lists": lists, "_directed": blocker})
-    k0 = len(cfgs)
+    # ... and two fully open ones (nothing blocks: the attack must reach B - the non-interference comparison is not vacuous)
+    opened = [{"topo": "fw", "zoneA": "dmz", "zoneB": "int", "up": dict(all_up), "lists": {k: {"rules": [], "implicit": "PERMIT"} for k in LISTS}},
+              {"topo": "routed", "zoneA": "ext", "zoneB": "int", "up": dict(all_up), "lists": {k: {"rules": [], "implicit": "PERMIT"} for k in LISTS}}]
+    cfgs = cfgs + opened
     cfgs = cfgs + (directed if tier != "quick" else [d for i, d in enumerate(directed) if (i + seed) % 2 == 0 or d["zoneB"] == "int"])
     common.boot()
     walks = Walks()
